@@ -338,6 +338,7 @@ func runC03(w *World, r *Report) {
 	}
 	checkDeclaredTreesDoNotConverge(w, r, "R6")
 	c03Accessors(w, r)
+	c03ExtendKeepsKinds(w, r)
 	r.Min("R9", 5)
 	r.Min("R7", 2)
 	r.Min("R8", 2)
@@ -421,6 +422,7 @@ func checkLookupMergeGuard(w *World, r *Report, rule, key string, fn *ssa.Functi
 		r.Undec(rule, key+"/merge-sites", fn.Pos(), "no merge into the looked-up value found")
 	}
 	checkExactLookup(w, r, rule)
+	c03TreeNodesRecordTheirPosition(w, r, rule)
 }
 
 // checkExactLookup: LookupDeclaredURL descends by the KIND of each pattern part
@@ -720,4 +722,88 @@ func c03Accessors(w *World, r *Report) {
 			r.Undec("R4", "DoesQueryParamValueMatch/returns", f.Pos(), "expected one return on the present edge, found %d", n)
 		}
 	}
+}
+
+// c03ExtendKeepsKinds: merging the results of several matched nodes keeps each
+// kind of flow list in its own slot (user / system-start / system-end).
+func c03ExtendKeepsKinds(w *World, r *Report) {
+	f := w.Fn(pkgFilter, "FilterResult.Extend")
+	if f == nil {
+		r.Undec("R9", "FilterResult.Extend", token.NoPos, "function not found")
+		return
+	}
+	getter := map[string]string{"UserFlow": "GetUserFlow", "SystemFlowStart": "GetSystemFlowStart", "SystemFlowEnd": "GetSystemFlowEnd"}
+	n := 0
+	ok := true
+	var why []string
+	Instrs(f, func(in ssa.Instruction) {
+		st, isSt := in.(*ssa.Store)
+		if !isSt {
+			return
+		}
+		inner, ok1 := st.Addr.(*ssa.FieldAddr)
+		if !ok1 || fieldName(inner.X.Type(), inner.Field) != "Flow" {
+			return
+		}
+		outer, ok2 := inner.X.(*ssa.FieldAddr)
+		if !ok2 {
+			return
+		}
+		slot := fieldName(outer.X.Type(), outer.Field)
+		g, known := getter[slot]
+		if !known {
+			return
+		}
+		n++
+		fromOwnGetter := Derives(st.Val, func(x ssa.Value) bool {
+			c, isC := x.(*ssa.Call)
+			return isC && strings.HasSuffix(calleeID(c), ")."+g)
+		})
+		wrongGetter := false
+		for s2, g2 := range getter {
+			if s2 != slot && Derives(st.Val, func(x ssa.Value) bool {
+				c, isC := x.(*ssa.Call)
+				return isC && strings.HasSuffix(calleeID(c), ")."+g2)
+			}) {
+				wrongGetter = true
+			}
+		}
+		wrongBase := false
+		if c, isApp := peel(st.Val).(*ssa.Call); isApp {
+			if b, isB := c.Call.Value.(*ssa.Builtin); isB && b.Name() == "append" {
+				if !strings.HasSuffix(Path(c.Call.Args[0]), "."+slot+".Flow") {
+					wrongBase = true
+				}
+			}
+		}
+		if !fromOwnGetter || wrongGetter || wrongBase {
+			ok = false
+			why = append(why, slot+" <- "+trunc(Path(st.Val), 70))
+		}
+	})
+	r.Check(ok && n == 6, "R9", "FilterResult.Extend/each-kind-stays-in-its-slot", f.Pos(), "each of the %d stores into a result slot takes the other result's list of the same kind and, when appending, appends to the slot's own list %v", n, why)
+}
+
+// c03TreeNodesRecordTheirPosition: every node the insert creates records
+// whether it stands for a host label or a path segment; descent (matching and
+// exact lookup alike) compares that flag with the part being matched.
+func c03TreeNodesRecordTheirPosition(w *World, r *Report, rule string) {
+	ins := w.Fn(pkgURLTree, "URLTree.insertWithConvergenceIndication")
+	if ins == nil {
+		r.Undec(rule, "insert/node-literals", token.NoPos, "insert not found")
+		return
+	}
+	n, bad := 0, 0
+	Instrs(ins, func(in ssa.Instruction) {
+		a, ok := in.(*ssa.Alloc)
+		if !ok || !a.Heap || structOf(a.Type()) != "Node" {
+			return
+		}
+		n++
+		v := litField(a, "IsPartOfHost")
+		if v == nil || !strings.HasSuffix(Path(v), ".IsPartOfHost") || !strings.Contains(Path(v), "urlPart") && !strings.Contains(Path(v), "splitURL") {
+			bad++
+		}
+	})
+	r.Check(n >= 3 && bad == 0, rule, "insert/every-new-node-records-host-or-path", ins.Pos(), "%d node literals created by insert, %d without IsPartOfHost taken from the part being inserted", n, bad)
 }
